@@ -82,7 +82,7 @@ func Run(r *evid.Run) {
 	ks := keys(r.Thorough())
 	n := len(ks)
 	encs := make([][]byte, n)
-	r.Rule(fmt.Sprintf("%d keys = every byte string of length 1..3 over {00,01,61,FE,FF} plus boundary lengths {1018,1019,1020,1023,1024} x 4 fill patterns: all keys for round trip through DecodeBytes and the stream Decoder, all ordered pairs for injectivity and order preservation, all triples (lo,k,hi) for range membership, and every key through a real FSM (put alone; wildcard read and delete; index lookups intact); sibling sweep: for every shared-prefix length 0..1023 the keys p^n+a, p^n+b, p^n+a\\x00 and p^n itself through a real FSM (each alone, built up, torn down) with point reads, counted point deletes of absent siblings and transaction reads against the reference map; every pair of key lengths 1..20 through one apply call whose later commands read the call's pending writes (order inside the indexed batch). Non-trivial: the pair/triple has distinct members; distinct = distinct (relation outcome) tuples", n))
+	r.Rule(fmt.Sprintf("%d keys = every byte string of length 1..3 over {00,01,61,FE,FF} plus boundary lengths {1018,1019,1020,1023,1024} x 4 fill patterns: all keys for round trip through DecodeBytes and the stream Decoder, all ordered pairs for injectivity and order preservation, all triples (lo,k,hi) for range membership, and every key through a real FSM (put alone; wildcard read and delete; the table export = command snapshot holds exactly that key; index lookups intact); sibling sweep: for every shared-prefix length 0..1023 the keys p^n+a, p^n+b, p^n+a\\x00 and p^n itself through a real FSM (each alone, built up, torn down) with point reads, counted point deletes of absent siblings and transaction reads against the reference map; every pair of key lengths 1..20 through one apply call whose later commands read the call's pending writes (order inside the indexed batch). Non-trivial: the pair/triple has distinct members; distinct = distinct (relation outcome) tuples", n))
 	// round trips
 	for i, k := range ks {
 		e, err := enc(k)
@@ -203,6 +203,33 @@ func b2u(b bool) uint64 {
 		return 1
 	}
 	return 0
+}
+
+type msgWriter struct{ msgs [][]byte }
+
+func (w *msgWriter) Write(p []byte) (int, error) {
+	w.msgs = append(w.msgs, append([]byte(nil), p...))
+	return len(p), nil
+}
+
+// exportKeys runs the real command snapshot and returns the keys of the PUT commands it streams.
+func exportKeys(inst *fsmx.Inst) ([]string, error) {
+	w := &msgWriter{}
+	if _, err := inst.Lookup(fsm.SnapshotRequest{Writer: w}); err != nil {
+		return nil, err
+	}
+	var ks []string
+	for _, b := range w.msgs {
+		cmd := &regattapb.Command{}
+		if err := cmd.UnmarshalVT(b); err != nil {
+			return nil, err
+		}
+		if cmd.Type != regattapb.Command_PUT || cmd.Kv == nil {
+			return nil, fmt.Errorf("export message of type %s", cmd.Type)
+		}
+		ks = append(ks, string(cmd.Kv.Key))
+	}
+	return ks, nil
 }
 
 // runSiblings: a = p^n+"a", b = p^n+"b", c = p^n (n>0), d = p^n+"a\x00": every single-key read, counted
@@ -344,6 +371,13 @@ func runFSM(k []byte) (vs [][2]string) {
 		return
 	}
 	reads("after-put")
+	// the table export (command snapshot: follower bootstrap, backup, restore) addresses the same
+	// user key space as the wildcard: the key must be in it, and nothing but user keys
+	if exp, err := exportKeys(inst); err != nil {
+		vs = append(vs, [2]string{"fsm/export-error", err.Error()})
+	} else if len(exp) != 1 || exp[0] != string(k) {
+		vs = append(vs, [2]string{"fsm/export-differs-from-wildcard-range", fmt.Sprintf("key %s stored alone: the export holds %d keys %s", qk(k), len(exp), qk([]byte(strings.Join(exp, ","))))})
+	}
 	if !apply(2, Del(string(k), []byte{0}, true, true)) {
 		return
 	}
